@@ -329,7 +329,7 @@ pub fn run_c25(ctx: &mut Ctx) {
         let mut rng = ctx.rng.fork();
         for sc in enumerate_single(&mut rng) { inputs.push(sc.to_json()); }
         for sc in enumerate_pairs(&mut rng, !ctx.quick() || ctx.search) { inputs.push(sc.to_json()); }
-        let n = ctx.budget(150, 3000);
+        let n = ctx.budget(150, 2000);
         for _ in 0..n {
             let sc = gen_scenario(&mut rng, !ctx.quick());
             inputs.push(sc.to_json());
